@@ -230,7 +230,7 @@ def gen_stopscan(ctx, n):
         P = {"max_iter": 4, "crit": rng.choice(SUPPORTED), "gn_interval": rng.choice([0, 1, 1, 2]), "gn_sticky": rng.random() < 0.5, "chol": rng.random() < 0.5,
              "mem": 3, "L_0": rng.choice([0.125, 1.0, 0.0])}
         always = rng.random() < 0.5
-        for e in range(0, 26, rng.choice([1, 2])):
+        for e in range(0, 26, 1 if P["gn_interval"] > 0 else rng.choice([1, 2])):     # Gauss-Newton runs: every index
             out.append(Case(p, u0, y, mu, P, always, 1e-9, stop_eval=e, tag="stopscan"))
     return out
 
@@ -480,7 +480,8 @@ def run_corr(ctx, prefix, scale, extra_oracle=None):
     if real:
         cs, o = owners[real[0]]
         # the model is PROVED to satisfy the invariants; an input on which the implementation leaves the model's trajectory is a concrete failing input
-        (ctx.violation if prefix == "PANOCOCP" else (lambda *a, **k: None))("PANOCOCP:run-differs-from-verified-model",
+        # ... also for C13, whose end-to-end theorem (C13_panoc_ocp_converged_is_stationary) is a statement about this model
+        (ctx.violation if prefix in ("PANOCOCP", "C13") else (lambda *a, **k: None))(sig("PANOCOCP:run-differs-from-verified-model"),
                       "whole run of PANOCOCPSolver differs from the verified model PanocOcpLoop.panoc_ocp (first of %d disagreeing runs; status=%s iterations=%s)" % (len(real), o.get("status"), o.get("iterations")),
                       {"driver": "drv_ocp", "input": cs.to_input(), "request": cs.describe(), "impl_output": {k: v for k, v in o.items() if k != "records"},
                        "model_dump": getattr(ctx, "last_dump", "")[-3000:], "why": "model (Coq, binary64) and implementation disagree on this run"})
